@@ -274,3 +274,12 @@ Theorem peer_close_bounds_pending_write :
   Skeleton.peer_close_bounds_pending_write gen_peer_close_bounds_write = true.
 Proof. exact peer_close_bounds_pending_write_holds. Qed.
 Print Assumptions peer_close_bounds_pending_write.
+
+(** Per run: no goroutine of the inventory sends to a client's queue with a
+    blocking send, except the two handshake sends of the attach goroutine
+    (WELCOME / ABORT, the first message of an empty queue): a session handler
+    can therefore always reach its exit path, which [realm.close] waits for. *)
+Theorem handlers_never_block_on_client :
+  Skeleton.no_blocking_send_to_client gen_funcs = true.
+Proof. exact handlers_never_block_on_client_holds. Qed.
+Print Assumptions handlers_never_block_on_client.
